@@ -1,9 +1,11 @@
 #!/bin/bash
 # tools/try_mutant.sh <property id> <patch.diff> : apply the patch to /repo, run the property's quick check, undo.
-# Prints the VIOLATION/OK line. Never leaves /repo modified.
+# Prints the VIOLATION/OK line. Never leaves /repo modified; the property's evidence file (rewritten by the run with the
+# change applied) is restored from git afterwards. The harness binary it leaves behind is rebuilt by the next ./check.
 id=$1; patch=$2
 cd /repo || exit 2
 if ! git apply --check "$patch" 2>/dev/null; then echo "PATCH-DOES-NOT-APPLY $patch"; exit 3; fi
 git apply "$patch"
 cd /verif && ./check "$id" --tier quick 2>&1 | grep -E "^(OK|VIOLATION|KNOWN|  )" | cut -c1-300 | head -4
 git -C /repo checkout -- . ; git -C /repo status --short | head -2
+git -C /verif checkout -- "evidence/$id.json" 2>/dev/null
